@@ -13,3 +13,21 @@ Print Assumptions C18_fault_handling.
 Theorem C18_engine_survives : forall i t, run_history i = Some t -> fuel_ok t = true.
 Proof. exact engine_survives. Qed.
 Print Assumptions C18_engine_survives.
+
+(* Non-vacuity: a run with three fatal results (and one where the OnOpen reply cannot be written) is accepted by
+   both checkers, never leaves the environment contract, and the doomed connection gets OnClose with an error. *)
+Example C18_nonvacuous :
+  match run_history LoopFault.fault_example with
+  | Some t => (fault_ok t, fuel_ok t,
+               List.length (filter (fun e => match e with EOut ("g", ASym "fail" :: _) => true | _ => false end) t),
+               existsb is_desync t)
+  | None => (false, false, O, true)
+  end = (true, true, 3%nat, false) /\
+  match run_history LoopFault.fault_example_open with
+  | Some t => (fault_ok t, fuel_ok t,
+               existsb (fun e => match e with EOut ("cb", [ASym "close"; AInt 0; ASym "err"]) => true | _ => false end) t,
+               existsb is_desync t)
+  | None => (false, false, false, true)
+  end = (true, true, true, false).
+Proof. split; [exact LoopFault.fault_example_runs|exact LoopFault.fault_example_open_runs]. Qed.
+Print Assumptions C18_nonvacuous.
